@@ -488,10 +488,23 @@ class Gen:
         self.emit("nodes")
 
 
-def gen_scripts(seed, count, prof, tag):
+def _gen_range(args):
+    seed, lo, hi, prof, tag = args
     out = []
-    for k in range(count):
+    for k in range(lo, hi):
         rng = random.Random("%s/%d/%d" % (tag, seed, k))
         g = Gen(rng, prof)
         out.append(("%s_%d_%d" % (tag, seed, k), g.script()))
     return out
+
+
+def gen_scripts(seed, count, prof, tag):
+    if count < 400:
+        return _gen_range((seed, 0, count, prof, tag))
+    import multiprocessing as mp
+    n = 16
+    step = (count + n - 1) // n
+    jobs = [(seed, lo, min(count, lo + step), prof, tag) for lo in range(0, count, step)]
+    with mp.Pool(n) as pool:
+        parts = pool.map(_gen_range, jobs)
+    return [x for p in parts for x in p]
